@@ -84,9 +84,10 @@ def gen_case(rng, tier, idx):
                 file_kv[k] = str(rng.randint(1, 9)) if NUM[k] is int else rng.choice(["1.5", "30", "0.25"])
             if rng.random() < p:
                 env_kv[k] = str(rng.randint(10, 19)) if NUM[k] is int else rng.choice(["2.5", "45"])
-            if k == "retries" and rng.random() < p:
-                cli += ["--retry", "25"]
-                cli_kv["retries"] = 25
+            if k == "retries" and rng.random() < max(p, 0.15):
+                v = rng.choice([25, 1, 1, 3])          # 1 is the built-in default: still "given on the command line"
+                cli += ["--retry", str(v)]
+                cli_kv["retries"] = v
         elif k in ("output_dir", "output_file"):
             form = rng.choice(["fresh", "fresh", "fresh", "exists", "noparent", "empty"])
             val = {"fresh": "@S@/out_%s_%%d" % k, "exists": "@S@/existing_%s%s" % (k, ".tar.gz" if k == "output_file" else ""), "noparent": "@S@/nope/x_%s" % k, "empty": ""}[form]
@@ -282,6 +283,15 @@ def run_case(spec, ctx):
                                                                        values=dict((k, repr(getattr(c, k, None))) for k in ("offline", "no_upload", "register", "to_json", "obfuscate", "obfuscate_hostname"))))
             return True
         no_gpg_given = any("no_gpg" in layer for layer in (file_kv, env_kv, cli_kv)) or any(a == "--no-gpg" for a in cli)
+        # options an implication may touch are compared too whenever none of their implications applies
+        from insights.client.constants import InsightsConstants as constants
+        if L["compressor"] in constants.valid_compressors and not L["output_file"] and c.compressor != L["compressor"]:
+            ctx.violation("option-value-not-from-highest-priority-source", dict(w, option="compressor", got=repr(c.compressor), expected=repr(L["compressor"]), source=src["compressor"]))
+        if not (app == "malware-detection") and c.retries != L["retries"]:
+            ctx.violation("option-value-not-from-highest-priority-source", dict(w, option="retries", got=repr(c.retries), expected=repr(L["retries"]), source=src["retries"]))
+        if not L["payload"] and c.logging_file != L["logging_file"]:
+            ctx.violation("option-value-not-from-highest-priority-source", dict(w, option="logging_file", got=repr(c.logging_file), expected=repr(L["logging_file"]), source=src["logging_file"]))
+        ctx.count("option_values_compared", 3)
         for k in O:
             if k in SKIP:
                 continue
